@@ -69,6 +69,9 @@ def items(tier):
             out.append(dict(kind="history", id="%s-%s" % (t, h), template=t, hist=h,
                             **(dict(timeout=600) if t == "eigensolve-sparse" and q else {}),
                             **(dict(logical_dtype=True) if t == "assemble-realthencomplex" else {})))
+        if t in ("overhang", "densityfilter", "filterconv", "linsolve-dense", "aggregation-active", "assemble-const", "poisson-linsolve",
+                 "eigensolve-dense"):
+            out.append(dict(kind="history", id="%s-two-cycles-inplace" % t, template=t, hist="two-cycles", inplace=True))
         out.append(dict(kind="unseeded", id="%s-unseeded" % t, template=t))
     return out
 
@@ -357,7 +360,15 @@ def sc_history(V, P, cfg):
     for stp in HIST[cfg["hist"]]:
         if stp.startswith("set"):
             k = int(stp[3:])
+            olds = [sg.state for sg in N.inputs]
             N.set(k)
+            if cfg.get("inplace") and last is not None:
+                # the user updates the SAME input arrays in place (x[:] = new design) instead of binding new ones
+                for sg, old in zip(N.inputs, olds):
+                    new = sg.state
+                    if isinstance(old, np.ndarray) and isinstance(new, np.ndarray) and old.shape == new.shape and old.dtype == new.dtype:
+                        old[...] = new
+                        sg.state = old
             last = k
         elif stp == "resp":
             N.net.response()
